@@ -7,6 +7,7 @@ N = @@N@@          # number of body lines (shard constant)
 K = @@K@@          # max indent length
 L = @@L@@          # max text length per line
 LEADERLESS = @@LEADERLESS@@
+FIRSTLINE = @@FIRSTLINE@@    # the first text stands on the opening line: '#[[[ text'
 NCP = @@NCP@@      # N * L
 PADIND = @@PADIND@@  # concrete prefix of the block indentation (deeply indented blocks), followed by the symbolic indent characters
 PAD = @@PAD@@      # concrete filler inserted in the middle of every non-empty text: long lines at a concrete, large length
@@ -44,6 +45,7 @@ def _letter(c) -> bool:
 def check(cps: $$CPS$$, m: $$MT$$, ind: $$IT$$, km: int) -> bool:
     """
     pre: _pre(cps, m, ind, km)
+    pre: (not FIRSTLINE) or m[0] >= 1
     pre: (not LEADERLESS) or (km == 0 and all(m[i] >= 1 and _letter(cps[i * L]) for i in range(N)))
     post: _
     """
@@ -57,6 +59,9 @@ def check(cps: $$CPS$$, m: $$MT$$, ind: $$IT$$, km: int) -> bool:
             indent = PADIND + hc.S(ind[:k])
     if LEADERLESS:
         lines = ["#[[["] + list(texts) + ["#]]"]
+    elif FIRSTLINE:
+        lines = hc.canon_lines(indent, texts[1:])
+        lines[0] = "#[[[ " + texts[0]
     else:
         lines = hc.canon_lines(indent, texts)
     got = DocumentationAggregator.clean_doc_lines(lines)
